@@ -119,6 +119,22 @@ func runMigrate(dir string, seed uint64, tier string) {
 	fail := func(id int, sig, what, input string, obs, exp interface{}) {
 		res.fail(monitorFailure{Property: "C13", CaseID: id, Signature: sig, What: what, Input: input, Observed: obs, Expected: exp})
 	}
+	// the numbers statuses are stored under are part of the on-disk format (records of earlier builds and of schema
+	// version 2 carry them): a stored record keeps meaning what it meant.  The table below is the published numbering,
+	// written out here, not taken from the repository's constants
+	published := []string{"Requested", "Ongoing", "TransferFinished", "ResponderCompleted", "Finalizing", "Completing", "Completed", "Failing",
+		"Failed", "Cancelling", "Cancelled", "InitiatorPaused", "ResponderPaused", "BothPaused", "ResponderFinalizing",
+		"ResponderFinalizingTransferFinished", "ChannelNotFoundError", "Queued", "AwaitingAcceptance"}
+	for code, name := range published {
+		if got := datatransfer.Statuses[datatransfer.Status(code)]; got != name {
+			for _, prop := range []string{"C13", "C06"} {
+				res.fail(monitorFailure{Property: prop, CaseID: 0, Signature: "stored-status-renumbered",
+					What:     fmt.Sprintf("a channel record stored with status number %d (%s in every earlier build and in schema version 2) is now read as %s", code, name, got),
+					Input:    fmt.Sprintf("any datastore written before the change that holds a channel in status %s", name),
+					Observed: got, Expected: name})
+			}
+		}
+	}
 	statusCursor := 0
 	for id := 1; id <= n; id++ {
 		version := 2
